@@ -1656,8 +1656,10 @@ def value_getattr(it, v, a):
                 m = Msg.default(v.elem)
                 for k, x in kw.items():
                     msg_setfield(it_, m, k, x, init=True)
-                # NOTE: returned message is a copy; later mutation is not reflected (guarded by check_aliasing)
+                # the returned message writes later mutations through to its list slot (Msg.touch / slot)
+                idx = v.n
                 symlist_append(it_, v, m)
+                m.slot = (v, idx)
                 return m
             return Builtin('add', add)
         raise Unsupported('array-list method %s' % a)
